@@ -55,7 +55,10 @@ KNOWN_ACTIVE = CONFIRMED
 
 
 def env_avoid():
-    return set(x for x in os.environ.get("BSI_AVOID", "").split(",") if x)
+    # default: the script shapes of the findings RECORDED in known_findings.json (not repaired: format change needed /
+    # out of the properties' scope) are not generated, so that the rest of the family is explored; the recorded findings
+    # themselves are replayed from corpus/ by the runner
+    return set(x for x in os.environ.get("BSI_AVOID", "marsh_neg,equals_width").split(",") if x)
 
 
 def blen64(v):
